@@ -23,7 +23,7 @@ fn cell_text(rng: &mut Rng) -> String {
 fn render_cell(rng: &mut Rng, special: bool) -> (String, String) {
     let mut v = cell_text(rng);
     if special {
-        let extras = [",", "\"", "\n", "\r\n", ",,", "\"\""];
+        let extras = [",", "\"", "\n", "\r\n", ",,", "\"\"", "\r"];
         for _ in 0..1 + rng.below(2) {
             let pos = rng.below(v.chars().count() + 1);
             let idx = v.char_indices().nth(pos).map(|(i, _)| i).unwrap_or(v.len());
